@@ -113,6 +113,23 @@ class Ctx:
             self.failed.append(Failed(name, sig or name, _plain(info), model))
         return ok
 
+    def witness_check(self, name, thunk, sig=None, info=None):
+        """Obligation on rendered TEXT (JSON/str), which the engine only samples: evaluated on the concrete
+        replay of every path's model (one witness per path), skipped in symbolic mode.  thunk() -> bool."""
+        if self.sym:
+            return True
+        try:
+            ok = bool(thunk())
+            extra = None
+        except Exception as exc:  # a rendering crash is a failure of the obligation
+            ok = False
+            extra = '%s: %s' % (type(exc).__name__, exc)
+        if ok:
+            self.passed += 1
+        else:
+            self.failed.append(Failed(name, sig or name, _plain(info if extra is None else {'info': _plain(info), 'raised': extra}), None))
+        return ok
+
     def cover(self, tag):
         if tag not in self.covers:
             self.covers.append(tag)
